@@ -126,6 +126,9 @@ def library(tier):
         # announcing a writer, then a statistics read / a new client id; every request must still be answered
         {"id": "lib_lockorder_statsread", "kind": "lockorder", "conns": [c(1, 5, "statsread")]},
         {"id": "lib_lockorder_new_client", "kind": "lockorder", "conns": [c(1, 5, "touch")]},
+        # the packet-id limiter's lock against a session queue's mutex: a resumed session parked at the persistence boundary in
+        # pollInflights while a publication makes the full queue drop an expired in-flight message (pl.release under the queue mutex)
+        {"id": "lib_lockorder_poll_inflights", "kind": "lockorder", "conns": [c(1, 5, "pollinfl")]},
         # fresh client ids, subscription-store writers, deliveries and statistics reads against each other (both delivery modes)
         {"id": "lib_pairs_overlap", "kind": "pairs", "seed": 2, "storm": dict(clients=24, ids=4, ops=40 if tier == "quick" else 300, api=2, stop_lo_ms=0, stop_hi_ms=1)},
         {"id": "lib_pairs_onlyonce", "kind": "pairs", "seed": 3, "storm": dict(clients=24, ids=4, ops=40 if tier == "quick" else 300, api=2, stop_lo_ms=0, stop_hi_ms=1)},
@@ -146,7 +149,9 @@ def storms(ctx, tier):
         big = tier == "thorough" and i % 3 == 0
         out.append({"id": "storm_%d_%d" % (ctx.seed, i), "kind": "storm", "seed": ctx.seed * 100003 + i,
                     "storm": {"clients": 24 if big else 10, "ids": 3 + i % 4, "ops": 120 if big else 50, "api": 2 + i % 3,
-                              "stop_lo_ms": 80, "stop_hi_ms": 1500 if big else 700}})
+                              "stop_lo_ms": 80, "stop_hi_ms": 1500 if big else 700,
+                              # every third storm: most clients carry a delayed will and are killed (will timers started and cancelled)
+                              "wills": 80 if i % 3 == 1 else 0}})
     return out
 
 
